@@ -847,7 +847,7 @@ def expected_from_outcome(kind: str, outcome: str) -> str:
     if ws[0] == 'badmsg':
         return 'sftp 5'
     if ws[0] == 'pd':
-        return 'pd'
+        return 'sftp 5'         # _make_request reports a reply it cannot decode as SFTPBadMessage (repair b69e8f1)
     if ws[0] == 'none':
         return 'ok none'
     if ws[0] == 'attrs':
@@ -858,7 +858,7 @@ def expected_from_outcome(kind: str, outcome: str) -> str:
         return 'ok bytes ' + ws[1]
     if ws[0] == 'names':
         if ws[2] == '-':
-            return 'exc IndexError'
+            return 'sftp 5'     # exactly one name is expected (repair b69e8f1; an empty list used to raise IndexError)
         names = ws[2].split(';')
         if len(names) > 1:
             return 'sftp 5'
@@ -868,5 +868,5 @@ def expected_from_outcome(kind: str, outcome: str) -> str:
         payload = unhx(ws[1])
         if len(payload) == 88:
             return 'ok vfs ' + hx(payload)
-        return 'pd'
+        return 'sftp 5'
     return 'unmapped ' + outcome
